@@ -557,7 +557,11 @@ func c07RunStreams(out string, c *Curve, seed uint64, tier string) int {
 	for _, gn := range groups {
 		ty := "s" + strings.ToLower(gn)
 		g := s.g[gn]
-		for _, labels := range [][]string{{"G", "O", "2G", "O", "-G"}, {"O"}, {"O", "O", "G"}} {
+		long := make([]string, 41) // more elements than CPUs: the parallel decompression works on chunks of several elements
+		for i := range long {
+			long[i] = []string{"G", "O", "2G", "-G", "kG"}[(i*i+i/3)%5]
+		}
+		for _, labels := range [][]string{{"G", "O", "2G", "O", "-G"}, {"O"}, {"O", "O", "G"}, long} {
 			sl := reflect.MakeSlice(c.c07Type(ty), len(labels), len(labels))
 			for i, lb := range labels {
 				sl.Index(i).Set(g.pt(lb).Elem())
